@@ -5,6 +5,7 @@ use rustfmt_nightly::verif_hooks as hooks;
 use serde_json::{json, Value};
 use std::io::{self, BufRead, Write};
 
+mod c03;
 mod c07;
 mod c11;
 mod c12;
@@ -19,6 +20,7 @@ fn main() {
     }
     let sub = args[1].as_str();
     let f: fn(&Value) -> Value = match sub {
+        "c03" => c03::run,
         "c07" => c07::run,
         "c11" => c11::run,
         "c12" => c12::run,
